@@ -23,6 +23,18 @@ claimed = {
  "C11": dict(
    text="Lean 4 proof: nothing is registered where the data sheets define nothing (regenerated table fact, both models); an unimplemented opcode yields exactly one fetch then the illegal-opcode error with registers untouched; totality of the model (three exits). The host-crash part (Go runtime) is PARTIAL: validated only by execution of random cases under a bus watchdog.",
    technique="Lean 4 proof over regenerated opcode table + differential correspondence (runtime part partial)"),
+ "C04": dict(
+   text="Lean 4 proof: the Go address decoders (machine arithmetic, all four memory types) equal the documented map for all 65 536 addresses x all values of every banking register / LUT entry (C04_decode, no enumeration); read-your-writes by induction over arbitrary histories with banking state resolved at access time (C04_ryw); one-byte stores, in-bounds, linear fault boundary. Tie: MemSpec switch regenerated from emuconfig (memspec_builds) + history differential on the ten real machines against the compiled model and against the specification's documented map.",
+   technique="Lean 4 decoder-equivalence proof + history induction + regenerated MemSpec switch + differential histories"),
+ "C05": dict(
+   text="Lean 4 proof: calcLongIndex = README layout for all 2^32 linear addresses (C05_layout); the layout is a bank-independent injection and surjection onto all cells with a linear address, faults past the end, coherent with the CPU view (C05_inj, C05_surj, C05_bank_indep, C05_fault, C05_coherent). Tie: differential histories mixing both views on the real machines incl. past-the-end probes and complete final image sweeps.",
+   technique="Lean 4 bijection/coherence proof + differential histories through both views"),
+ "C06": dict(
+   text="Lean 4 proof: counter of a cell after any history = accesses since the last clear that resolved to it, by induction over histories with bank switches, both views, queries, clears, snapshots (C06_count); queries pure; clear total. Tie: the list of counters ClearStatistics zeroes is regenerated from the Go AST and proved to cover every region (clear_covers) + differential histories with interleaved queries and a complete final counter sweep.",
+   technique="Lean 4 history induction + regenerated clear lists + differential histories with full counter sweep"),
+ "C07": dict(
+   text="Lean 4 proof: snapshot; any history without TakeSnapshot; restore returns every cell of every region (banks, registers, LUTs) to its snapshot-time value; snapshot immutable; repeatable (C07_restore, C07_snapshot_immutable, C07_repeat). Tie: the copy statements of TakeSnapshot/RestoreSnapshot of every memory type and the forwarding of the wrapper are regenerated from the Go AST and proved to cover every region (snapshot_covers, wrapper_forwards) + executions on the real machines comparing the complete image after each restore with the image at snapshot time.",
+   technique="Lean 4 history proof + regenerated snapshot copy lists + snapshot/restore image comparison on real machines"),
 }
 
 checks = []
